@@ -212,6 +212,11 @@ def run(chk, repo, tier):
     from .extra_rules import fit_tilt_rules as _fit_tilt_rules
     with chk.guard(['C03-p'], 'plane.Plane.fit_tilt'):
         _fit_tilt_rules(chk, repo, 'C03-p')
+    # ... fitted against the same piston / tip / tilt basis as the whole aperture: the rows of every segment are the
+    # monolithic rows times that segment's mask, each ramp scaled by the pixel size of its own axis
+    from .c04 import basis_rule as _basis_rule
+    with chk.guard(['C03-p'], 'plane.Plane.ptt_vector'):
+        _basis_rule(_common.Remap(chk, {'C04-i': 'C03-p'}), repo, 'C04-i')
     from .prop_flow import skip_rule as _skip_rule
     _skip_rule(chk, repo, 'C03-p')
     from .prop_flow import per_field_shift_rule as _pfs_rule
